@@ -586,7 +586,19 @@ fn run_base(b: Base) -> String {
             *slot.borrow_mut() = None;
             format!("{outer} ;; inner {:?}", inner.borrow())
         }
-        ValidatorFail => res_obs(serde_saphyr::from_str_validate::<Validated6>("a: x\nb: &v y\nc: *v\nd: 1\ne: zz\nf: q\n")),
+        ValidatorFail => {
+            let text = "a: x\nb: &v y\nc: *v\nd: 1\ne: zz\nf: q\n";
+            match serde_saphyr::from_str_validate::<Validated6>(text) {
+                Ok(v) => format!("OK {v:?}"),
+                Err(e) => {
+                    // the same error through the miette adapter (its own walk over the report)
+                    let report = serde_saphyr::miette::to_miette_report(&e, text, "input.yaml");
+                    let mut narrated = String::new();
+                    let _ = miette::NarratableReportHandler::new().render_report(&mut narrated, report.as_ref());
+                    format!("{} ;; miette {narrated}", err_obs(&e))
+                }
+            }
+        }
         Multi => {
             #[derive(Deserialize)]
             struct D {
